@@ -23,7 +23,14 @@ from sa import regexast
 from sa import strterm as T
 from sa.guards import atoms, eval_skel
 
-noinline = lambda f: False  # noqa: E731
+from sa.vocab import FUNCTIONS as _VOCAB_FUNCS
+
+
+def noinline(f):
+    """Inline policy of every scenario here: nothing of the reference vocabulary is looked into (each anchor is analysed on its own), but
+    a helper an edit introduced (a name the reference tree does not have) is transparent - also where the canonicaliser could not
+    splice it in (same new name defined in several classes)."""
+    return f.name not in _VOCAB_FUNCS and not (f.name.startswith('__') and f.name.endswith('__'))
 
 B64 = '[A-Za-z0-9+/]'
 TEXT_CODECS = ('latin-1', 'latin1', 'iso-8859-1', 'ascii', 'us-ascii', 'utf-8', 'utf8')   # all agree on the base64 alphabet
@@ -150,15 +157,34 @@ def refs_group(node, name):
     return False
 
 
+B64_ENCODERS = ('base64.b64encode(_X)', 'base64.standard_b64encode(_X)', 'b64encode(_X)', 'standard_b64encode(_X)',
+                'binascii.b2a_base64(_X, newline=False)', 'b2a_base64(_X, newline=False)')
+OTHER_ENCODERS = ('urlsafe_b64encode', 'b32encode', 'b16encode', 'a85encode', 'b85encode', 'encodebytes', 'encodestring', 'hexlify', 'b2a_hex', 'b2a_uu',
+                  'b2a_qp', 'hex')
+
+
 def b64text_of(node):
-    """X if the term is the text of base64(X): base64.b64encode(X).decode(<ascii-compatible codec>) / str(base64.b64encode(X), codec)."""
-    for pat in ('base64.b64encode(_X).decode(_C)', 'str(base64.b64encode(_X), _C)', 'base64.b64encode(_X).decode()',
-                'b64encode(_X).decode(_C)', 'b64encode(_X).decode()', 'str(b64encode(_X), _C)'):
+    """X if the term is the text of the RFC 4648 base64 of X (standard alphabet, no line feed), decoded with an ASCII-compatible codec."""
+    inner = None
+    for pat in ('_E.decode(_C)', 'str(_E, _C)', '_E.decode()', 'str(_E, encoding=_C)', '_E.decode(encoding=_C)'):
         m = T.match(node, pat)
         if m is not None:
             c = m.get('_C')
             if c is None or (isinstance(c, ast.Constant) and isinstance(c.value, str) and c.value.lower() in TEXT_CODECS):
-                return m['_X']
+                inner = m['_E']
+                break
+    if inner is None:
+        return None
+    m = T.match_any(inner, B64_ENCODERS)
+    return m['_X'] if m is not None else None
+
+
+def other_encoding(node):
+    """Name of a non-base64 / non-standard-alphabet encoder the term applies (urlsafe, base32, hex ...), else None."""
+    hit = _calls_named(node, OTHER_ENCODERS) if node is not None else []
+    if hit:
+        f = hit[0].func
+        return f.attr if isinstance(f, ast.Attribute) else f.id
     return None
 
 
@@ -224,7 +250,11 @@ def crc(rep, prog, A):
                ('every one-octet input', [[o] for o in range(256)]),
                ('two-octet inputs', [[0, 0], [0, 1], [1, 0], [0x80, 0], [0xff, 0xff], [0xa5, 0x5a], [0x12, 0x34]]),
                ('"123456789" (check value 0x21CF02)', [list(b'123456789')]),
-               ('twelve octets', [[0xff] * 12, [0] * 12, list(range(0xf4, 0x100))])]
+               ('twelve octets', [[0xff] * 12, [0] * 12, list(range(0xf4, 0x100))]),
+               # inputs that drive the RFC register through its boundary states: all zero, exactly 0x1000000 after a shift (only bit 24
+               # set), 0x1FFFFFE (all ones shifted), 0x800000 / 0x7FFFFF before a shift - where a comparison differs from a bit test
+               ('register boundary states', [list(bytes.fromhex(h)) for h in ('b704ce', 'b704ce80', 'b704ce00', '7422b300', 'f55af600', '367c8b00',
+                                                                              '71e68780', '15b18d00', 'd697f000', 'b7044e')])]
     if ref_crc24(b'123456789') != 0x21CF02:     # pragma: no cover   (the checker's own transcription of the RFC)
         raise AnalysisError('checker-side CRC-24 reference is wrong')
     for kind in ('bytearray', 'bytes'):
@@ -259,6 +289,21 @@ def _sub(table, s):
         else:
             out.append(('L', ch))
     return out
+
+
+def _chunk_width(pattern):
+    """n if re.findall(pattern, text) cuts a text without line feeds into consecutive pieces of n characters (last one shorter): .{1,n} greedy."""
+    try:
+        tree, p = regexast.norm_pattern(pattern, 0)
+    except (regexast.Unsupported, re.error):
+        return None
+    if p.state.groups != 1 or len(tree) != 1 or tree[0][0] != 'rep' or tree[0][1] != 1 or tree[0][2] is None or not tree[0][3]:
+        return None
+    inner = tree[0][4]
+    b64 = frozenset(ord(c) for c in 'ABCDEFGHIJKLMNOPQRSTUVWXYZabcdefghijklmnopqrstuvwxyz0123456789+/=')
+    if len(inner) == 1 and inner[0][0] == 'set' and b64 <= inner[0][1]:
+        return tree[0][2]
+    return None
 
 
 def writer(rep, prog, A):
@@ -298,6 +343,23 @@ def writer(rep, prog, A):
             if sm is not None and cm is not None and isinstance(var, ast.Name) and T.same(sm['_I'], var) and \
                     isinstance(sm['_W'], ast.Constant) and isinstance(cm.get('_S', ast.Constant(value=1)), ast.Constant):
                 P, W, Q, S = sm['_P'], sm['_W'].value, cm['_Q'], cm.get('_S', ast.Constant(value=1)).value
+        if P is None and len(body) == 1 and body[0][0] == 'J' and body[0][1] == '\n' and len(body[0][4]) == 1 and body[0][4][0][0] == 'V':
+            # the export cut into slices of 3k octets, each encoded on its own: base64 works on 3-octet quanta, so this is the text cut every 4k characters
+            _, _, var, coll, inner = body[0]
+            E = b64text_of(inner[0][1])
+            sm = T.match(E, 'SLICE(_P, _I, _I + _W)') if E is not None else None
+            cm = T.match(coll, 'range(0, len(_Q), _S)')
+            if sm is not None and cm is not None and isinstance(var, ast.Name) and T.same(sm['_I'], var) and isinstance(sm['_W'], ast.Constant) and \
+                    isinstance(cm['_S'], ast.Constant) and isinstance(sm['_W'].value, int) and sm['_W'].value % 3 == 0 and is_export(sm['_P'], selfn) and \
+                    T.same(sm['_P'], cm['_Q']):
+                b64 = T.parse_term("base64.b64encode(%s).decode('latin-1')" % T.show(sm['_P']).replace('$', '_B'))
+                P, Q, W, S = b64, b64, sm['_W'].value // 3 * 4, (cm['_S'].value // 3 * 4 if cm['_S'].value % 3 == 0 else -1)
+        if P is None and len(body) == 1 and body[0][0] == 'V':
+            rm = T.match(body[0][1], "'\\n'.join(re.findall(_R, _P))")
+            if rm is not None and isinstance(rm['_R'], ast.Constant) and isinstance(rm['_R'].value, str):
+                w = _chunk_width(rm['_R'].value)
+                if w is not None:
+                    P, W, Q, S = rm['_P'], w, rm['_P'], w
         if P is None and len(body) == 1 and body[0][0] == 'V':
             # the stdlib line wrappers: on a text without blanks they cut exactly every `width` characters
             tm = T.match_any(body[0][1], ["'\\n'.join(textwrap.wrap(_P, _W))", "'\\n'.join(textwrap.wrap(_P, width=_W))", "textwrap.fill(_P, _W)",
@@ -324,10 +386,14 @@ def writer(rep, prog, A):
         crcp = _sub(table, m.group('crc'))
         shown_crc = T.show_pieces(crcp)
         Y = b64text_of(crcp[0][1]) if len(crcp) == 1 and crcp[0][0] == 'V' else None
-        im = T.match_any(Y, ['INT(_N, _C)', "_C.to_bytes(_N, 'big')", "_C.to_bytes(_N, byteorder='big')", "_C.to_bytes(length=_N, byteorder='big')"]) \
-            if Y is not None else None
+        im = T.match_any(Y, ['INT(_N, _C)', "_C.to_bytes(_N, 'big')", "_C.to_bytes(_N, byteorder='big')", "_C.to_bytes(length=_N, byteorder='big')",
+                             "int_to_bytes(_C, _N, 'big')"]) if Y is not None else None
+        enc = other_encoding(crcp[0][1]) if len(crcp) == 1 and crcp[0][0] == 'V' else None
         cm = im and T.match_any(im['_C'], ['_R.crc24(_D)', 'crc24(_D)'])
-        if Y is not None and im is None and not _calls_named(Y, ('crc24',)):
+        if Y is None and enc is not None:
+            rep.violation('C10.2', 'Armorable.__str__', 'crc = %s' % shown_crc, 'the checksum is written in radix-64 (RFC 4648 base64, standard alphabet), not %s' % enc,
+                          where=f.where, expected='b64encode(int_to_bytes(crc24(bytes(self)), 3))', found=shown_crc)
+        elif Y is not None and im is None and not _calls_named(Y, ('crc24',)):
             rep.violation('C10.2', 'Armorable.__str__', 'crc = %s' % shown_crc, 'the checksum line must carry the CRC-24 of the binary export', where=f.where,
                           expected='b64encode(int_to_bytes(crc24(bytes(self)), 3))', found=shown_crc)
         elif im is not None and not (isinstance(im['_N'], ast.Constant) and im['_N'].value == 3):
@@ -342,26 +408,28 @@ def writer(rep, prog, A):
                       where=f.where, expected="b64encode(int_to_bytes(crc24(bytes(self)), 3))", found=shown_crc)
         # ---- header lines
         hdr = _sub(table, m.group('hdr'))
-        ok = False
-        if len(hdr) == 1 and hdr[0][0] == 'J' and hdr[0][1] == '':
-            _, _, var, coll, inner = hdr[0]
+        ok, why = False, None
+        if len(hdr) == 1 and hdr[0][0] == 'J':
+            _, jsep, var, coll, inner = hdr[0]
             itext, itable = T.layout(inner)
-            hm = re.match(r'^(%s)([^\n]*)(%s)\n$' % (T.PH, T.PH), itext)
-            slots = [itable[hm.group(i)] for i in (1, 3)] if hm else []
-            if hm and all(p[0] == 'V' for p in slots) and not any(ch in itable for ch in hm.group(2)):
-                D = '%s.ascii_headers' % selfn
-                got = [T.show(ast.Tuple(elts=[var, p[1]], ctx=ast.Load())) for p in slots]       # each slot as a function of the loop variable(s)
-                if isinstance(var, ast.Tuple) and len(var.elts) == 2 and T.show(coll) == D + '.items()':
-                    want = [T.show(ast.Tuple(elts=[var, e], ctx=ast.Load())) for e in var.elts]
-                elif isinstance(var, ast.Name) and T.show(coll) in (D, D + '.keys()', 'list(%s)' % D, 'iter(%s)' % D):
-                    val = ast.Subscript(value=T.parse_term(D), slice=var, ctx=ast.Load())
-                    want = [T.show(ast.Tuple(elts=[var, e], ctx=ast.Load())) for e in (var, val)]
-                else:
-                    want = None
-                if want is not None and got == want:
-                    ok = True
-                    sep_seen = hm.group(2)
-        rep.check(ok and sep_seen == ': ', 'C10.7', 'Armorable.__str__', 'headers %s' % T.show_pieces(hdr)[:120],
+            hm = re.match(r'^(%s)([^\n%s]*)(%s)(\n?)$' % (T.PH, T.PH[1:-1], T.PH), itext)
+            D = '%s.ascii_headers' % selfn
+            want = None
+            if isinstance(var, ast.Tuple) and len(var.elts) == 2 and T.show(coll) == D + '.items()':
+                want = list(var.elts)
+            elif isinstance(var, ast.Name) and T.show(coll) == D + '.items()':
+                want = [ast.Subscript(value=var, slice=ast.Constant(value=i), ctx=ast.Load()) for i in (0, 1)]
+            elif isinstance(var, ast.Name) and T.show(coll) in (D, D + '.keys()', 'list(%s)' % D, 'iter(%s)' % D):
+                want = [var, ast.Subscript(value=T.parse_term(D), slice=var, ctx=ast.Load())]
+            if hm is None or want is None or not all(itable[hm.group(i)][0] == 'V' for i in (1, 3)):
+                raise AnalysisError('Armorable.__str__: armor header lines have an unmodelled shape: %s' % T.show_pieces(hdr)[:200])
+            got = [T.show(ast.Tuple(elts=[var, itable[hm.group(i)][1]], ctx=ast.Load())) for i in (1, 3)]     # each slot as a function of the loop variable(s)
+            exp = [T.show(ast.Tuple(elts=[var, e], ctx=ast.Load())) for e in want]
+            sep_seen = hm.group(2)
+            ok = got == exp and jsep == '' and hm.group(4) == '\n' and sep_seen == ': '
+        elif not (len(hdr) == 1 and hdr[0][0] == 'L'):
+            raise AnalysisError('Armorable.__str__: armor header lines have an unmodelled shape: %s' % T.show_pieces(hdr)[:200])
+        rep.check(ok, 'C10.7', 'Armorable.__str__', 'headers %s' % T.show_pieces(hdr)[:120],
                   'each supplied armor header is written as "key: value" on its own line', where=f.where,
                   expected="''.join(<key> ': ' <value> '\\n' for key, value in self.ascii_headers.items())", found=T.show_pieces(hdr))
     # reader's crc group: exactly 4 base64 characters after '='
@@ -386,7 +454,7 @@ def _label(s):
     """The literal text a path returns, or None."""
     if s.raised is not None or s.ret is None:
         return None
-    ps = T.pieces(render(s.ret))
+    ps = T.pieces(T.fold(T.parse_term(render(s.ret))) or render(s.ret))
     if len(ps) == 1 and ps[0][0] == 'L':
         return ps[0][1]
     if not ps:
@@ -463,19 +531,66 @@ def verdict_for_label(prog, f, ua, label, cleartext=None):
     return 'depends', outs
 
 
+def _paths_shape(outs):
+    return tuple(sorted((s.raised or '', tuple((t, v) for t, v, sk in s.facts)) for s in outs))
+
+
+def _divergence(outs):
+    """The first decision on which a rejecting and a non-rejecting path differ."""
+    rej = [s for s in outs if s.raised is not None]
+    acc = [s for s in outs if s.raised is None] or [s for s in outs if s not in rej]
+    for a in rej:
+        for b in acc:
+            for (t1, v1, _), (t2, v2, _) in zip(a.facts, b.facts):
+                if t1 != t2:
+                    break
+                if v1 != v2:
+                    return t1
+    return None
+
+
+def _undecided_about(outs, label):
+    """The decision that separates rejecting from accepting paths is about the (constant) label itself: the interpreter met a test
+    on a known value it has no model for - an analysis gap, not a property of the code."""
+    t = _divergence(outs)
+    return t is not None and (repr(label) in t if label is not None else re.search(r'\bNone\b', t) is not None)
+
+
+def require_traceable_label(cls, runs):
+    """The scenarios pin the label the reader found (the 'magic' entry).  If the paths are the same whatever label is pinned although
+    they do decide something about that entry, the code reads it by a route the interpreter does not follow: an analysis gap."""
+    shapes = set(_paths_shape(outs) for v, outs in runs.values())
+    if len(shapes) == 1:
+        for v, outs in runs.values():
+            for s in outs:
+                for t, val, sk in s.facts:
+                    if "'magic'" in t or '"magic"' in t:
+                        raise AnalysisError('%s.parse: the armor label is read in a way the checker cannot follow: %s' % (cls, t[:200]))
+
+
 def kind_checks(rep, prog):
     cases = {
-        'PGPSignature': {'SIGNATURE': True, 'MESSAGE': False, 'PUBLIC KEY BLOCK': False, 'PRIVATE KEY BLOCK': False, 'ARMORED FILE': False},
-        'PGPMessage': {'SIGNATURE': True, 'MESSAGE': True, 'PUBLIC KEY BLOCK': False, 'PRIVATE KEY BLOCK': False, 'ARMORED FILE': False},
-        'PGPKey': {'SIGNATURE': False, 'MESSAGE': False, 'PUBLIC KEY BLOCK': True, 'PRIVATE KEY BLOCK': True, 'ARMORED FILE': False},
+        'PGPSignature': {'SIGNATURE': True, 'MESSAGE': False, 'PUBLIC KEY BLOCK': False, 'PRIVATE KEY BLOCK': False},
+        'PGPMessage': {'SIGNATURE': True, 'MESSAGE': True, 'PUBLIC KEY BLOCK': False, 'PRIVATE KEY BLOCK': False},
+        'PGPKey': {'SIGNATURE': False, 'MESSAGE': False, 'PUBLIC KEY BLOCK': True, 'PRIVATE KEY BLOCK': True},
     }
+    # labels of no kind at all, chosen next to the real ones (a part of one, one with a letter more, a word of one): nobody may accept them
+    for table in cases.values():
+        for bogus in ('ARMORED FILE', 'ARMORED BLOCK', 'MESSAGES', 'SIGNATURES', 'SIGN', 'MESS', 'MESSAGE, PART 1/2', 'PUBLIC', 'BLOCK'):
+            table[bogus] = False
     for cls, table in cases.items():
         f = prog.method('pgpy.pgp', cls, 'parse')
         rep.saw(fn=f)
         ua = unarmor_call(prog, f)
+        runs = {}
         for label, accept in list(table.items()) + [(None, True)]:
-            v, outs = verdict_for_label(prog, f, ua, label)
+            runs[label] = verdict_for_label(prog, f, ua, label)
+        require_traceable_label(cls, runs)
+        for label, accept in list(table.items()) + [(None, True)]:
+            v, outs = runs[label]
             scen = 'label %r' % (label,)
+            if v == 'depends' and _undecided_about(outs, label):
+                raise AnalysisError('%s.parse: the kind check is not decidable for label %r: %s' % (cls, label, _divergence(outs)))
             late = [s for s in outs if s.raised is not None and _consumes(prog, f, s)]
             found = {'reject': 'raise', 'accept': 'accepted', 'depends': 'raise on some paths only'}[v]
             if not accept and v == 'accept' and late and len(late) == len(outs):
@@ -492,6 +607,7 @@ def kind_checks(rep, prog):
     ua = unarmor_call(prog, f)
     src = "%s['cleartext']" % ua
     v, outs = verdict_for_label(prog, f, ua, 'SIGNATURE')
+    require_traceable_label('PGPMessage', {'SIGNATURE': (v, outs), 'MESSAGE': verdict_for_label(prog, f, ua, 'MESSAGE')})
     args = sorted(set(c[1][0] for s in outs for c in s.calls if c[0].split('.')[-1] == 'dash_unescape' and c[1]))
     rep.check(args == [src], 'C10.5', 'PGPMessage.parse', 'cleartext source %s' % args,
               'a SIGNATURE block is a cleartext message only through its signed-message preamble: the text must be that group, with no fallback',
